@@ -72,6 +72,14 @@ def run(W, cfg):
     tol = 1e-9 * K
     for k in range(K):
         W.ob_close(f'fit(compose(c))[{k}] = c[{k}]', fit[k], c[k], tol)
+    # the other normalisation setting on the same mask and modes, later in the same process (nothing may be remembered from the first)
+    opd_o = Z.zernike_compose(mask, full, normalize=not cfg['normalize'], **kw)
+    fit_o = Z.zernike_fit(opd_o, mask, modes, normalize=not cfg['normalize'], **kw)
+    for k in range(K):
+        W.ob_close(f'other normalisation afterwards: fit(compose(c))[{k}] = c[{k}]', fit_o[k], c[k], tol)
+    fit_b = Z.zernike_fit(opd, mask, modes, normalize=cfg['normalize'], **kw)
+    for k in range(K):
+        W.ob_close(f'first setting once more: fit(compose(c))[{k}] = c[{k}]', fit_b[k], c[k], tol)
     # remove: arbitrary OPD on the mask
     cells = [(r, cc) for r in range(mask.shape[0]) for cc in range(mask.shape[1]) if mask[r, cc]]
     O = W.zeros(mask.shape)
